@@ -31,7 +31,7 @@ theorem not_testreq_of {t : String} (h : isAppType t ∨ t = mHeartbeat) : t ≠
 /-- what a receiver does with an application message or Heartbeat frame -/
 theorem recv_oneway_est {sr : Msg → Bool} {env : Env} {c : Conn} {f : Msg} {v : String} (h : Est c)
     (ha : Addressed c f v c.sess.nextIn) (hty : isAppType f.mtype ∨ f.mtype = mHeartbeat) :
-    ∃ e, recv sr env c f = (afterIn c env f, e) ∧ writes e = [] ∧ hasRaised e = false := by
+    ∃ e, recv sr env c f = (afterIn c env f, e) ∧ writes e = [] ∧ Tester.hasRaised e = false := by
   rcases hty with hty | hty
   · exact ⟨_, recv_app_est h ha hty, rfl, rfl⟩
   · exact ⟨_, recv_hb_est h ha hty, rfl, rfl⟩
